@@ -1075,8 +1075,14 @@ def run_V(pid, tier, seed):
                 break       # a hang is a counterexample already; every further run would cost the full time-out
         try:
             import slice_v as _V
-            tdags = _V.build_real(mod, {}, 1, False)
+            tattrs = _V.gen_attrs(random.Random("attrs/%s/%s" % (seed, k)))
+            tdags = _V.build_real(mod, tattrs, 1, False)
             realtab = _V.real_table_terms(tdags[-1], mod["args"])
+            bad_attrs = _V.attr_mismatches(tdags[-1], tattrs)
+            stats["tables_with_attributes_checked"] = stats.get("tables_with_attributes_checked", 0) + 1
+            if bad_attrs and pid in ("C20", "C01"):
+                failures.append(Failure("counterexample", "spliced-node-lost-a-declared-attribute", mod,
+                                        dict(nodes=bad_attrs[:4], source=[V.def_source(d_, mod["defs"], False) for d_ in mod["defs"]]), slice_="V"))
         except BaseException as e:  # noqa: BLE001
             realtab = ("BUILD-ERR", type(e).__name__)
         tables["m%s" % k] = realtab
